@@ -181,6 +181,7 @@ func (ord *Order) ValidateWithContext(ctx context.Context) error {
 		validation.Field(&ord.ExchangeRates),
 		validation.Field(&ord.Contracts),
 		validation.Field(&ord.Preceding),
+		validation.Field(&ord.Tax),
 		validation.Field(&ord.Supplier, validation.Required),
 		validation.Field(&ord.Customer),
 		validation.Field(&ord.Buyer),
